@@ -127,7 +127,11 @@ func bodyOfStaking(m sdk.Msg, valID func(string) string) string {
 	case *stakingtypes.MsgDelegate:
 		return "dg " + valID(v.ValidatorAddress) + " " + v.Amount.Amount.BigInt().String()
 	case *stakingtypes.MsgBeginRedelegate:
-		return "rd " + valID(v.ValidatorSrcAddress) + " " + valID(v.ValidatorDstAddress) + " " + v.Amount.Amount.BigInt().String()
+		src := valID(v.ValidatorSrcAddress)
+		if src == valID(v.ValidatorDstAddress) && v.ValidatorSrcAddress != v.ValidatorDstAddress {
+			src += "~" // the decorator compares the two strings: another spelling of the same validator is "another" source
+		}
+		return "rd " + src + " " + valID(v.ValidatorDstAddress) + " " + v.Amount.Amount.BigInt().String()
 	}
 	return "o"
 }
